@@ -262,6 +262,42 @@ def stage_ninja(rep, rng, names):
     return bad
 
 
+def stage_system_names(rep, rng, thorough):
+    """Real configure + make on projects whose source / directory / output names carry special characters:
+    the object is created at exactly that path, a second build is a no-op, touching the source rebuilds, clean removes."""
+    from . import project
+    bad = 0
+    specials = [' ', '#', '$', '&', '(', ')', ',', '@', '!', '+', '~', '{', '}', '=', '"', '^', ':', ';']
+    picks = specials if thorough else rng.sample(specials, 5) + [',']
+    for c in picks:
+        stem = 'ma' + c + 'in'
+        with project.Scratch('c04s') as s:
+            project.write_tree(s.src, {'build.bfg': "project('p')\nexecutable('prog', files=[%r])\n" % ('d' + c + 'r/' + stem + '.c'),
+                                       'd' + c + 'r/' + stem + '.c': 'int main(void){return 0;}\n'})
+            rc, out = project.configure(s.src, s.build, 'make')
+            if rc != 0:
+                rep.count('system:configure_rejects')
+                continue
+            rcm, recs, mout = project.make(s.build, ['all'], stub_tools=True)
+            obj = os.path.join(s.build, 'prog.int', 'd' + c + 'r', stem + '.o')
+            ok = rcm == 0 and os.path.exists(obj) and any(r['argv'] and ('prog.int/d' + c + 'r/' + stem + '.o') in r['argv'] and '-o' in r['argv'] and r['argv'][-1] == 'prog' for r in recs)
+            rcm2, recs2, _ = project.make(s.build, ['all'], stub_tools=True) if ok else (1, [], '')
+            ok = ok and rcm2 == 0 and not recs2
+            rep.case('sys:' + c, True)
+            # in scope only when an accepted escaping exists for both the directory and the file name
+            if not ok and reference_ok('d' + c + 'r')[0] and reference_ok(stem + '.o')[0]:
+                cls = list(classify(stem, 'make'))
+                if c == ',':
+                    cls.append('make-call-comma')
+                if c in '()':
+                    cls.append('make-call-paren')
+                if rep.fail('Make: project with source %r does not build / rebuilds: %s' % ('d' + c + 'r/' + stem + '.c', mout[-200:]),
+                            {'char': c, 'make_output': mout[-800:], 'object_exists': os.path.exists(obj)}, classes=tuple(cls)):
+                    bad += 1
+    rep.stage('system names', chars=len(picks), failures=bad)
+    return bad
+
+
 def run(rep):
     rng = random.Random(rep.seed)
     thorough = rep.tier == 'thorough'
@@ -273,6 +309,7 @@ def run(rep):
     found = stage_make(rep, rng, names)
     found += stage_make_recipe_names(rep, rng, names if thorough else names[::3])
     found += stage_ninja(rep, rng, names)
+    found += stage_system_names(rep, rng, thorough)
     if dis and not found:
         i, call, iv, mv = dis[0]
         rep.fail('W:%s - model and implementation disagree (%d cases), e.g. %r: impl %r, model %r' % (
